@@ -8,7 +8,7 @@ from ..cfg import cfg_of, handler_names
 from ..excflow import enclosing_handlers, handler_behaviour, handler_catches, route
 from ..locks import RoleReach, accesses, get_locks, thread_roles
 from ..model import AnalysisError, NotConst, Sym, dotted, norm, walk_own
-from .common import calls_in, cfg_nodes_with_ast, find_calls, key_of, node_exprs
+from .common import calls_in, cfg_nodes_with_ast, cmp_fact, find_calls, guards_of, key_of, node_exprs
 
 EXPLANATION = (
     "Static ownership and containment analysis. A points-to based call graph (receiver-sensitive, with constant "
@@ -506,7 +506,49 @@ def rule_r8(ctx):
     ctx.r.floor(rid, n_checked, 2, "registering calls on the construction chain")
 
 
-RULES = [rule_r1, rule_r2, rule_r3, rule_r4, rule_r5, rule_r6, rule_r7, rule_r8]
+def rule_r9(ctx):
+    rid = "C13.R9"
+    ctx.r.rule(rid, "poll passes tolerate descriptors unregistered by an earlier handler of the same pass: the socket map is only read through .get() and the result is tested for None before it is dispatched")
+    p = ctx.p
+    n = 0
+    for q in ("wasyncore.poll", "wasyncore.poll2"):
+        f = p.func(q)
+        g = cfg_of(f)
+        mp = "map" if "map" in f.params else None
+        if mp is None:
+            raise AnalysisError("%s has no map parameter" % q)
+        # (a) no map[fd] lookups (KeyError escapes poll -> loop -> run: the I/O loop dies for every connection)
+        for node in g.nodes:
+            if node.ast is None or node.kind not in ("stmt", "test", "iter"):
+                continue
+            root = node.ast.iter if node.kind == "iter" else node.ast
+            for x in ast.walk(root):
+                if isinstance(x, ast.Subscript) and isinstance(x.ctx, ast.Load) and dotted(x.value) == mp:
+                    ctx.r.violation(rid, key_of(f, None, "map-subscript"), "%s looks a descriptor up with %s: a channel closed by an earlier handler in the same pass raises KeyError out of the I/O loop" % (q, norm(x)), f.loc(x))
+        # (b) dispatch calls get a value that was tested for None
+        gets = {}
+        for node in g.nodes:
+            if node.kind == "stmt" and isinstance(node.ast, ast.Assign) and isinstance(node.ast.value, ast.Call) and dotted(node.ast.value.func) == mp + ".get" \
+                    and isinstance(node.ast.targets[0], ast.Name):
+                gets[node.ast.targets[0].id] = node
+        for node, c in find_calls(g, lambda c: isinstance(c.func, ast.Name) and c.func.id in ("read", "write", "_exception", "readwrite") and c.args):
+            a0 = c.args[0]
+            n += 1
+            if isinstance(a0, ast.Name) and a0.id in gets:
+                if any(cmp_fact(t, pol) == ("is", a0.id, "None", False) for (t, pol) in guards_of(g, node)):
+                    ctx.r.ok(rid, "%s(%s) only for a descriptor still registered" % (c.func.id, a0.id), f.loc(node.ast))
+                else:
+                    ctx.r.violation(rid, key_of(f, None, "dispatch-none::" + c.func.id), "%s dispatches %s(%s) without testing the lookup for None" % (q, c.func.id, a0.id), f.loc(node.ast))
+            elif isinstance(a0, ast.Call) and dotted(a0.func) == mp + ".get":
+                ctx.r.violation(rid, key_of(f, None, "dispatch-none::" + c.func.id), "%s dispatches %s on an untested lookup" % (q, c.func.id), f.loc(node.ast))
+            elif isinstance(a0, ast.Subscript):
+                pass  # reported under (a)
+            else:
+                ctx.r.violation(rid, key_of(f, None, "dispatch-source::" + c.func.id), "%s dispatches %s(%s): not a tested map.get() result" % (q, c.func.id, norm(a0)), f.loc(node.ast))
+    ctx.r.floor(rid, n, 4, "dispatch calls in the poll passes")
+
+
+RULES = [rule_r1, rule_r2, rule_r3, rule_r4, rule_r5, rule_r6, rule_r7, rule_r8, rule_r9]
 
 
 from ..selftest import M, T, V  # noqa: E402
